@@ -206,6 +206,28 @@ def correction_guard(ctx, rule='division-guarded'):
             txt = show(den)
             if any(k in txt for k in ('cwiseMax', 'select(', 'max(', 'cwiseMin')):
                 guarded = True
+            # ... or if the denominator is a local whose last write before the division replaces its small entries by a
+            # positive floor:  v = (abs(v) < floor).select(Constant(floor), v)  with  floor = max(.., min())
+            dn = sym(fn, ops[1], inline=False)
+            while isinstance(dn, tuple) and dn[0] in ('array', 'matrix') and len(dn) == 2:
+                dn = dn[1]
+            if not guarded and isinstance(dn, tuple) and dn[0] == 'L':
+                writes = [x for x in fn.walk() if x['k'] in ('CXXOperatorCallExpr', 'BinaryOperator') and x.get('op') == '=' and sym(fn, x, inline=False)[1] == dn]
+                for w in writes:
+                    t = sym(fn, w, inline=False)[2]
+                    if not (isinstance(t, tuple) and t[0] == 'select' and len(t) == 4):
+                        continue
+                    cnd, a_, b_ = t[1], t[2], t[3]
+                    fl = cnd[2] if cnd[0] in ('<', '<=') and cnd[1] == ('abs', dn) else None
+                    if fl is None or b_ != dn or not (a_ == fl or (a_[0] == 'call' and a_[1] == 'Constant' and a_[-1] == fl)):
+                        continue
+                    # the floor is positive: max(x, min()) / max(x, positive literal)
+                    fi = [sym(fn, d_['init'], inline=False) for y in fn.walk() if y['k'] == 'DeclStmt' for d_ in y['decls'] if 'init' in d_ and fl[0] == 'L' and fn.locals[d_['var']]['name'] == fl[1]]
+                    positive = bool(fi) and fi[0][0] == 'call' and fi[0][1] == 'max' and any(u == ('call', 'min') or (u[0] == 'lit' and float(u[1]) > 0) for u in fi[0][2:])
+                    later = [x for x in writes if x['l'] > w['l'] and x['l'] < d['l']]
+                    if positive and not later and paths.dominated_by(fn, fn.pos_of(d), lambda n_, w=w: n_['id'] == w['id']):
+                        guarded = True
+                        txt = '%s, whose entries below the positive floor %s were replaced by it' % (show(dn), show(fl))
             ctx.check(guarded, rule, 'DavidsonSymEigsSolver::calculate_correction_vector', fn.qname,
                       'division by %s is guarded' % txt if guarded else
                       'the correction divides by %s with no guard: an exactly decoupled coordinate (theta_k == a_ii) gives 0/0 or x/0 and the iteration continues with NaN' % txt)
